@@ -86,7 +86,7 @@ def harness_dir():
 def build(variant):
     """Build the harness (and jbonsai from /repo's working tree). Returns (ok, text)."""
     os.makedirs(WORK, exist_ok=True)
-    lock = open(os.path.join(WORK, f"build-{variant}.lock"), "w")
+    lock = open(os.path.join(WORK, f"build-{variant}{repo_tag()}.lock"), "w")
     fcntl.flock(lock, fcntl.LOCK_EX)
     try:
         # the harness pins /repo's lock file
